@@ -120,6 +120,69 @@ theorem expr_answer_depends_only_on_function (a a' b b' : Expr α)
     · intro h ρ; rw [← ha, ← hb]; exact h ρ
     · intro h ρ; rw [ha, hb]; exact h ρ
 
+
+/-! ### the answers form an equivalence relation and a preorder (expressions) -/
+theorem expr_equiv_refl (a : Expr α) : a.semanticEq a = true := (expr_equiv_iff a a).mpr fun _ => rfl
+theorem expr_equiv_symm (a b : Expr α) : a.semanticEq b = b.semanticEq a := by
+  apply Bool.eq_iff_iff.mpr
+  rw [expr_equiv_iff, expr_equiv_iff]
+  exact ⟨fun h ρ => (h ρ).symm, fun h ρ => (h ρ).symm⟩
+theorem expr_equiv_trans (a b c : Expr α) (h₁ : a.semanticEq b = true) (h₂ : b.semanticEq c = true) :
+    a.semanticEq c = true := by
+  rw [expr_equiv_iff] at *
+  exact fun ρ => (h₁ ρ).trans (h₂ ρ)
+theorem expr_implied_refl (a : Expr α) : a.isImpliedBy a = true := (expr_implied_iff a a).mpr fun _ h => h
+theorem expr_implied_trans (a b c : Expr α) (h₁ : a.isImpliedBy b = true) (h₂ : b.isImpliedBy c = true) :
+    a.isImpliedBy c = true := by
+  rw [expr_implied_iff] at *
+  exact fun ρ h => h₁ ρ (h₂ ρ h)
+/-- equivalent exactly when each implies the other -/
+theorem expr_equiv_iff_mutual (a b : Expr α) :
+    a.semanticEq b = (a.isImpliedBy b && b.isImpliedBy a) := by
+  apply Bool.eq_iff_iff.mpr
+  rw [Bool.and_eq_true, expr_equiv_iff, expr_implied_iff, expr_implied_iff]
+  constructor
+  · intro h; exact ⟨fun ρ hb => by rw [h ρ]; exact hb, fun ρ ha => by rw [← h ρ]; exact ha⟩
+  · intro ⟨h₁, h₂⟩ ρ
+    cases ha : a.den ρ <;> cases hb : b.den ρ <;> simp_all
+
+/-! ### … and for tables -/
+theorem table_equiv_refl (a : Table α) (ha : a.WF) : a.semanticEq a = true :=
+  (table_equiv_iff a a ha ha).mpr fun _ => rfl
+theorem table_equiv_symm (a b : Table α) (ha : a.WF) (hb : b.WF) : a.semanticEq b = b.semanticEq a := by
+  apply Bool.eq_iff_iff.mpr
+  rw [table_equiv_iff a b ha hb, table_equiv_iff b a hb ha]
+  exact ⟨fun h ρ => (h ρ).symm, fun h ρ => (h ρ).symm⟩
+theorem table_equiv_trans (a b c : Table α) (ha : a.WF) (hb : b.WF) (hc : c.WF)
+    (h₁ : a.semanticEq b = true) (h₂ : b.semanticEq c = true) : a.semanticEq c = true := by
+  rw [table_equiv_iff a b ha hb] at h₁
+  rw [table_equiv_iff b c hb hc] at h₂
+  rw [table_equiv_iff a c ha hc]
+  exact fun ρ => (h₁ ρ).trans (h₂ ρ)
+theorem table_equiv_iff_mutual (a b : Table α) (ha : a.WF) (hb : b.WF) :
+    a.semanticEq b = (a.isImpliedBy b && b.isImpliedBy a) := by
+  apply Bool.eq_iff_iff.mpr
+  rw [Bool.and_eq_true, table_equiv_iff a b ha hb, table_implied_iff a b ha hb, table_implied_iff b a hb ha]
+  constructor
+  · intro h; exact ⟨fun ρ hb => by rw [h ρ]; exact hb, fun ρ ha => by rw [← h ρ]; exact ha⟩
+  · intro ⟨h₁, h₂⟩ ρ
+    cases ha : a.den ρ <;> cases hb : b.den ρ <;> simp_all
+
+/-! ### … and for diagrams -/
+theorem bdd_equiv_symm (a b : Bdd α) (ha : a.WF) (hb : b.WF) :
+    ∃ r, Bdd.isEquivalent a b = .ok r ∧ Bdd.isEquivalent b a = .ok r := by
+  obtain ⟨r, h, hr⟩ := bdd_equiv_iff a b ha hb
+  obtain ⟨r', h', hr'⟩ := bdd_equiv_iff b a hb ha
+  refine ⟨r, h, ?_⟩
+  have : r' = r := by
+    apply Bool.eq_iff_iff.mpr
+    rw [hr, hr']
+    exact ⟨fun h ρ => (h ρ).symm, fun h ρ => (h ρ).symm⟩
+  rw [h', this]
+theorem bdd_equiv_refl (a : Bdd α) (ha : a.WF) : Bdd.isEquivalent a a = .ok true := by
+  obtain ⟨r, h, hr⟩ := bdd_equiv_iff a a ha ha
+  rw [h, hr.mpr fun _ => rfl]
+
 /-- non-vacuity: `a xor b` against the same function rebuilt, and against a near miss -/
 example : (Expr.mkXor (.lit 1) (.lit 2) : Expr Nat).semanticEq
     (.or [.and [.lit 1, .not (.lit 2)], .and [.not (.lit 1), .lit 2, .or [.lit 7, .not (.lit 7)]]]) = true := by decide
